@@ -29,6 +29,7 @@ type c11Case struct {
 	Failing int          `json:"failing,omitempty"` // blocks made to fail
 	Entry  string        `json:"entry,omitempty"`   // "" = md, "root" = From-Root with WithMassive
 	NilCtx bool          `json:"nilCtx,omitempty"`  // WithMassive(nil): documented to mean context.Background()
+	Inodes int           `json:"inodes,omitempty"`  // mkdir: the target file system has room for Inodes-1 entries (ENOSPC beyond)
 	SingleP bool         `json:"singleP,omitempty"` // the worker process was started with GOMAXPROCS=1 ("every schedule" includes a one-CPU machine)
 }
 
@@ -40,6 +41,9 @@ func c11Make(c c11Case) ops.Case {
 	cs.Faults = c.Faults
 	cs.Cancel = c.Cancel
 	cs.Leak = true
+	if c.Inodes > 0 && cs.FS != nil {
+		cs.FS.InodeLimit = c.Inodes
+	}
 	if c.NilCtx && c.Cancel.Kind == "" {
 		cs.Opts.NilCtx = true
 	}
@@ -83,7 +87,7 @@ func c11Check(c c11Case) string {
 	if res.Leaked != "" {
 		return fmt.Sprintf("%sthe call returned (%s) but goroutines it started are still there after the settling period:\n%s", head, errOrNil(res), truncate(res.Leaked, 3000))
 	}
-	faulted := c.Faults.ReaderFailAt >= 0 || c.Faults.WriterFailAt >= 0 || c.Faults.CallbackFailAt >= 0
+	faulted := c.Faults.ReaderFailAt >= 0 || c.Faults.WriterFailAt >= 0 || c.Faults.CallbackFailAt >= 0 || c.Inodes > 0
 	switch c.Cancel.Kind {
 	case "pre", "deadline", "customctx-cancel":
 		if res.Err.Nil {
@@ -171,13 +175,16 @@ func c11Record(col *collector, c c11Case) {
 	if c.SingleP {
 		cl = append(cl, "process-with-one-P")
 	}
+	if c.Inodes > 0 {
+		cl = append(cl, "fault:file-system-full")
+	}
 	for p := range c.Sched.Hook {
 		cl = append(cl, "hook:"+p)
 	}
 	cl = append(cl, fmt.Sprintf("gomaxprocs:%d", c.Sched.GOMAXPROCS))
 	inside := c.Cancel.Kind == "atOffset" && c.Cancel.K > 0 && c.Cancel.K < len(c.Doc)
 	nontrivial := c.Failing >= 3 || inside || c.Faults.ReaderFailAt >= 1 || c.Faults.WriterFailAt >= 1 || c.Faults.CallbackFailAt >= 1 || c.Cancel.Kind == "atWrite" || c.Cancel.Kind == "atCallback" || c.Cancel.Kind == "afterDelay"
-	col.eval(nontrivial, hash64(string(c.Doc), fmt.Sprint(c.Op, c.Exts, c.Strict, c.Pre, c.Faults, c.Cancel, c.Sched, c.Race, c.Entry, c.NilCtx, c.SingleP)), cl...)
+	col.eval(nontrivial, hash64(string(c.Doc), fmt.Sprint(c.Op, c.Exts, c.Strict, c.Pre, c.Faults, c.Cancel, c.Sched, c.Race, c.Entry, c.NilCtx, c.SingleP, c.Inodes)), cl...)
 	col.sample(func() any {
 		return map[string]any{"doc": truncate(string(c.Doc), 200), "op": c.Op, "faults": c.Faults, "cancel": c.Cancel, "sched": c.Sched, "race": c.Race}
 	})
@@ -287,6 +294,9 @@ func c11Gen(race bool) *rapid.Generator[c11Case] {
 			}
 		}
 		c.NilCtx = rapid.IntRange(0, 9).Draw(t, "nilCtx") == 0
+		if op == "mkdir" && c.Entry == "" && mountOK() && rapid.IntRange(0, 2).Draw(t, "fsFull") == 0 {
+			c.Inodes = 1 + rapid.IntRange(0, 3*nroots).Draw(t, "room")
+		}
 		c.SingleP = !race && rapid.IntRange(0, 7).Draw(t, "singleP") == 0
 		c.Sched = genSched(t)
 		if c.SingleP {
